@@ -365,6 +365,28 @@ def op_index_write(root):
         r.close()
 
 
+def op_index_conflict(root):
+    """An unresolved conflict whose three stages are blobs no commit knows (git am -3, stash pop, cherry-pick of an
+    unreferenced commit): they are in use as long as the index names them."""
+    from dulwich.index import ConflictedIndexEntry, IndexEntry
+    from dulwich.objects import Blob
+
+    r = _wt(root)
+    try:
+        idx = r.open_index()
+        e = idx[b"a"]
+        stages = []
+        for text in (b"ancestor side\n", b"our side\n", b"their side\n"):
+            b = Blob.from_string(text)
+            r.object_store.add_object(b)
+            stages.append(IndexEntry(ctime=e.ctime, mtime=e.mtime, dev=e.dev, ino=e.ino, mode=0o100644, uid=e.uid, gid=e.gid,
+                                     size=len(text), sha=b.id, flags=0, extended_flags=0))
+        idx[b"conflicted"] = ConflictedIndexEntry(ancestor=stages[0], this=stages[1], other=stages[2])
+        idx.write()
+    finally:
+        r.close()
+
+
 def op_config_write(root):
     r = _wt(root)
     try:
@@ -449,6 +471,7 @@ OPS = {
     "repack": op_repack,
     "garbage_collect(grace=0)": op_gc,
     "Index.write": op_index_write,
+    "Index.write(conflict)": op_index_conflict,
     "ConfigFile.write_to_path": op_config_write,
     "write_commit_graph": op_commit_graph,
     "write_midx": op_midx,
@@ -527,7 +550,9 @@ def observe(root):
         # stat fields (times, inode, device) depend on the scratch copy the operation ran in, not on the operation
         def _ent(v):
             if hasattr(v, "sha"):
-                return (v.mode, v.sha, v.size, v.flags, getattr(v, "extended_flags", 0))
+                return (v.mode, v.sha, v.size, v.flags & ~0x3000, getattr(v, "extended_flags", 0))
+            if hasattr(v, "ancestor"):  # unresolved conflict: the three stages
+                return ("conflict",) + tuple(None if st is None else _ent(st) for st in (v.ancestor, v.this, v.other))
             return repr(v)
 
         out["index"] = sorted((k, _ent(v)) for k, v in idx.items())
